@@ -177,8 +177,14 @@ func min(a, b int) int {
 
 // ---- HTTP histories ----
 
-func runHistory(run *lib.Run, rng *lib.Rand, nops, nkeys int, replay []kvhist.Hop) {
-	h, err := kvhist.New(rng, "kv")
+func runHistory(run *lib.Run, rng *lib.Rand, nops, nkeys int, replay []kvhist.Hop, unversioned bool) {
+	var extra map[string]string
+	kind, ctor := "history", "CHist"
+	if unversioned {
+		extra = map[string]string{"versioned": "false"}
+		kind, ctor = "unversioned", "CUnv"
+	}
+	h, err := kvhist.NewWith(rng, "kv", extra)
 	if err != nil {
 		fmt.Fprintln(os.Stderr, err)
 		os.Exit(2)
@@ -189,7 +195,7 @@ func runHistory(run *lib.Run, rng *lib.Rand, nops, nkeys int, replay []kvhist.Ho
 		h.Random(nops, nkeys, 12)
 		h.Sweep(nkeys)
 	}
-	term := fmt.Sprintf("CHist %s [%s]", h.CoqOps(), strings.Join(h.Obs, ";"))
+	term := fmt.Sprintf("%s %s [%s]", ctor, h.CoqOps(), strings.Join(h.Obs, ";"))
 	merges := 0
 	for _, o := range h.Ops {
 		if o.Op == "child" && len(o.Parents) > 1 {
@@ -204,7 +210,7 @@ func runHistory(run *lib.Run, rng *lib.Rand, nops, nkeys int, replay []kvhist.Ho
 	}
 	run.Count(fmt.Sprintf("hist-merges:%d", min(merges, 3)))
 	b, _ := json.Marshal(h.Ops)
-	run.Add("history", term, histCase{Kind: "history", Ops: h.Ops}, "hist/"+string(b))
+	run.Add(kind, term, histCase{Kind: kind, Ops: h.Ops}, kind+"/"+string(b))
 }
 
 func main() {
@@ -224,10 +230,10 @@ func main() {
 		}
 		var kind string
 		json.Unmarshal(raw["kind"], &kind)
-		if kind == "history" {
+		if kind == "history" || kind == "unversioned" {
 			var hc histCase
 			lib.LoadReplay(o.Replay, &hc)
-			runHistory(run, rng, 0, 3, hc.Ops)
+			runHistory(run, rng, 0, 3, hc.Ops, kind == "unversioned")
 		} else {
 			var dc dagCase
 			lib.LoadReplay(o.Replay, &dc)
@@ -277,7 +283,11 @@ func main() {
 		nHist = 120
 	}
 	for i := 0; i < nHist; i++ {
-		runHistory(run, rng, 45, 3, nil)
+		runHistory(run, rng, 45, 3, nil, false)
+	}
+	// unversioned instances: every uuid of the repo reads and writes the same datum
+	for i := 0; i < nHist/4+1; i++ {
+		runHistory(run, rng, 30, 3, nil, true)
 	}
 	run.Finish("c01case",
 		"synthetic DAGs (<=10 nodes, 1-3 ordered parents, biased to merges and deep graphs) x random value/tombstone/nothing placements x random key-list order through the real findMatch; HTTP histories (put/delete/commit/branch/newversion/merge incl. refused writes) on a keyvalue instance with a final sweep of every key at every version; distinct = distinct (DAG, placement, order, version) or op sequence",
